@@ -128,6 +128,10 @@ func main() {
 		fmt.Fprintln(os.Stderr, "INCONCLUSIVE: no harness selected")
 		os.Exit(2)
 	}
+	if *prop != "" && *only == "" {
+		// counterexample and sample files of earlier runs of this check are stale
+		os.RemoveAll(filepath.Join(*verif, "evidence", "replay", *prop))
+	}
 	if *nvalid < 0 {
 		if *tier == "thorough" {
 			*nvalid = 12
